@@ -481,6 +481,51 @@ def rules(rep, m):
         r4.fail()
     else:
         r4.ok()
+    # the priority change reaches the record in every pool the process holds units of: the walk over its holdings calls
+    # the re-key callback of every holding that has one, and leaves only at the end of the list
+    ps = m.need("cmb_process_priority_set")
+    pcx = FuncCtx(m, ps)
+    cbs = [x for x in walk(ps.body) if x["kind"] == "CallExpr" and callee_ref(x) is None and
+           pcx.canon(kids(x)[0]).replace("*", "").replace("(", "").replace(")", "").endswith("->reprio")]
+    r4.instance("cmb_process_priority_set: %d call(s) of the holdings' re-key callback" % len(cbs))
+    okw = len(cbs) >= 1
+    why = "no call of the re-key callback of the holdings"
+    for c_ in cbs:
+        chain = inv.enclosing_chain(ps, c_)
+        loops = [a_ for a_ in chain if a_["kind"] in ("ForStmt", "WhileStmt", "DoStmt")]
+        if not loops:
+            okw, why = False, "the re-key callback is not called in a walk over the holdings"
+            break
+        lp = loops[-1]
+        extra = [cd for cd in inv.dominating_conditions(pcx, ps, c_)
+                 if not re.fullmatch(r"\(.*->reprio != NULL\)|!\(.*->reprio == NULL\)|\(.*->reprio != 0\)", cd)
+                 and any(cd in (pcx.canon(kids(a_)[0]), "!" + pcx.canon(kids(a_)[0])) or True for a_ in chain if a_["kind"] == "IfStmt" and any(y is a_ for y in walk(lp)))
+                 and cd not in inv.dominating_conditions(pcx, ps, lp)]
+        # conditions that come from the loop's own guard are not extra
+        if lp["kind"] in ("ForStmt", "WhileStmt"):
+            extra = [cd for cd in extra if cd != pcx.canon(kids(lp)[2] if lp["kind"] == "ForStmt" else kids(lp)[0])]
+        exits = []
+
+        def find_exits(n_, inner_loop=False):
+            for ch_ in kids(n_):
+                if ch_["kind"] in ("ReturnStmt", "GotoStmt") or (ch_["kind"] == "BreakStmt" and not inner_loop):
+                    exits.append(ch_)
+                elif ch_["kind"] in ("ForStmt", "WhileStmt", "DoStmt", "SwitchStmt"):
+                    find_exits(ch_, True)
+                else:
+                    find_exits(ch_, inner_loop)
+        find_exits(kids(lp)[-1] if lp["kind"] != "DoStmt" else kids(lp)[0])
+        if extra:
+            okw, why = False, "the re-key callback is called only under %s" % extra
+        if exits:
+            okw, why = False, "the walk over the holdings is left early (%s at line %s): holdings further down the list keep the " \
+                "old priority in their pool's record, so a later preemption picks its victims by stale priorities" % (
+                    exits[0]["kind"].replace("Stmt", "").lower(), exits[0].get("line") or (loc(exits[0]) or "?").split(":")[-1])
+    if not okw:
+        rep.finding(r4, ps.name, "rekey:walk-incomplete", "cmb_process_priority_set: %s" % why, where=m.rel(ps.where))
+        r4.fail()
+    else:
+        r4.ok()
     init = pf["cmb_resourcepool_initialize"]
     icx = FuncCtx(m, init)
     regs = {icx.canon(l).split(".")[-1]: render(r) for l, r, k, n in inv.stores(init) if ".drop" in icx.canon(l) or ".reprio" in icx.canon(l)}
